@@ -47,6 +47,19 @@ type c11Result struct {
 }
 
 // ---------- typed data values ----------
+type C11Inner struct {
+	Name string
+	Next *C11Inner
+}
+type c11Emb struct {
+	*C11Inner
+	Title string
+}
+type c11Emb2 struct {
+	c11Emb
+	K []string
+}
+
 type c11Priv struct {
 	Name   string
 	secret int
@@ -91,6 +104,10 @@ func c11Values() map[string]func() any {
 		"struct":        func() any { return c11Priv{Name: "n", secret: 3, inner: &c11Priv{Name: "i"}} },
 		"struct-ptr":    func() any { return &c11Priv{Name: "n", secret: 3} },
 		"nil-ptr":       func() any { var p *c11Priv; return p },
+		// fields promoted from an embedded struct pointer that is nil / set, and from an embedded value
+		"nil-embedded":  func() any { return c11Emb{Title: "t"} },
+		"set-embedded":  func() any { return &c11Emb{C11Inner: &C11Inner{Name: "in"}, Title: "t"} },
+		"deep-embedded": func() any { return c11Emb2{c11Emb: c11Emb{Title: "t"}} },
 		"ptr-ptr":       func() any { p := &c11Priv{Name: "pp"}; return &p },
 		"func":          func() any { return func() string { return "called" } },
 		"func-arg":      func() any { return func(a, b int) int { return a + b } },
@@ -227,7 +244,14 @@ func c11RunCase(c c11Case) (res c11Result) {
 			r.Class = "error"
 			r.Err = err.Error()
 			if len(r.Err) > 400 {
-				r.Err = r.Err[:400]
+				// a nested error names every file on the way: keep the beginning, the end and what kind of error it is
+				kind := ""
+				for _, k := range []string{"include depth exceeded", "error loading", "does not exist", "required attribute"} {
+					if strings.Contains(r.Err, k) {
+						kind += "[" + k + "] "
+					}
+				}
+				r.Err = kind + r.Err[:250] + " ... " + r.Err[len(r.Err)-100:]
 			}
 		} else {
 			r.Class = "ok"
@@ -283,6 +307,7 @@ func c11RunAll(r *Run, cases []c11Case) map[int]c11Result {
 	_ = os.WriteFile(in, b, 0o644)
 	res := map[int]c11Result{}
 	start := 0
+	killed := 0
 	self, _ := os.Executable()
 	for start < len(cases) {
 		cmd := exec.Command("bash", "-c", `ulimit -v 6000000; exec "$0" hostileworker C11 -in "$1" -out "$2" -start "$3"`, self, in, out, fmt.Sprint(start))
@@ -328,6 +353,15 @@ func c11RunAll(r *Run, cases []c11Case) map[int]c11Result {
 				}
 			}
 			res[cases[last].ID] = c11Result{ID: cases[last].ID, Class: "killed", Err: first}
+			killed++
+		} else if res[cases[last].ID].Class == "timeout" {
+			killed++
+		}
+		if killed >= 12 {
+			// every such case costs seconds (a stack grown to its limit, a process restart): a dozen failing inputs are
+			// enough to report; the rest of the stream is not run
+			r.Count("stream-cut-short-after-12-killed-or-hung-cases")
+			break
 		}
 		start = last + 1
 	}
@@ -339,6 +373,21 @@ func tail(s string, n int) string {
 		return s[len(s)-n:]
 	}
 	return s
+}
+
+// the outer shape of a component file
+func c11Wrap(w int) (string, string) {
+	switch w {
+	case 1:
+		return `<template v-if="yes"><div>`, `</div></template>`
+	case 2:
+		return `<template v-for="x in one"><div>`, `</div></template>`
+	case 3:
+		return `<template><div>`, `</div></template>`
+	case 4:
+		return `<template v-if="no">never</template><template v-else><div>`, `</div></template>`
+	}
+	return "<div>", "</div>"
 }
 
 // ---------- case families ----------
@@ -360,10 +409,12 @@ func c11GraphCases(r *Run, id *int) []c11Case {
 				}
 				g := [][]int{o0, o1, o2}
 				form := r.Rng.Intn(3)
+				// how each file is wrapped: an element, or a leading <template> that is a condition, a loop or the root wrapper
+				open, close_ := c11Wrap(r.Rng.Intn(5))
 				files := map[string]string{}
 				for f := 0; f < 3; f++ {
 					var b strings.Builder
-					fmt.Fprintf(&b, "<div>F%d", f)
+					fmt.Fprintf(&b, "%sF%d", open, f)
 					for _, t := range g[f] {
 						inc := fmt.Sprintf(`<template include="f%d.vuego"></template>`, t)
 						switch form {
@@ -374,7 +425,7 @@ func c11GraphCases(r *Run, id *int) []c11Case {
 						}
 						b.WriteString(inc)
 					}
-					b.WriteString("</div>")
+					b.WriteString(close_)
 					files[fmt.Sprintf("f%d.vuego", f)] = b.String()
 				}
 				*id++
@@ -384,18 +435,24 @@ func c11GraphCases(r *Run, id *int) []c11Case {
 		}
 	}
 	// chains just below and above the limit (the limit is read from the source by the translator)
-	for _, k := range []int{1, 5, 98, 99, 100, 101, 102, 150} {
-		files := map[string]string{}
-		for i := 0; i <= k; i++ {
-			body := fmt.Sprintf("<div>F%d", i)
-			if i < k {
-				body += fmt.Sprintf(`<template include="f%d.vuego"></template>`, i+1)
+	for ki, k := range []int{1, 5, 98, 99, 100, 101, 102, 150} {
+		for w := 0; w < 5; w++ {
+			if w > 0 && (k < 99 || (w+ki)%2 == 0) {
+				continue
 			}
-			files[fmt.Sprintf("f%d.vuego", i)] = body + "</div>"
-		}
-		for _, e := range []string{"load", "vue", "fragment"} {
-			*id++
-			cases = append(cases, c11Case{ID: *id, Family: "include-chain", Files: files, Entry: e, Page: "f0.vuego", Data: "string", Chain: k})
+			open, close_ := c11Wrap(w)
+			files := map[string]string{}
+			for i := 0; i <= k; i++ {
+				body := fmt.Sprintf("%sF%d", open, i)
+				if i < k {
+					body += fmt.Sprintf(`<template include="f%d.vuego"></template>`, i+1)
+				}
+				files[fmt.Sprintf("f%d.vuego", i)] = body + close_
+			}
+			for _, e := range []string{"load", "vue", "fragment"} {
+				*id++
+				cases = append(cases, c11Case{ID: *id, Family: "include-chain", Files: files, Entry: e, Page: "f0.vuego", Data: "string", Chain: k})
+			}
 		}
 	}
 	// cycles through slots, components with slot content, layouts
